@@ -98,9 +98,9 @@ pub(crate) struct Conn {
     pub(crate) limits: Vec<(Family, u32, Arc<std::sync::atomic::AtomicU64>)>,
 }
 
-/// Open a TCP connection from `from` and hand the server side to the real
-/// `accept_connection` with `role`.  Ok(None): the daemon refused the connection.
-pub(crate) async fn connect(d: &Daemon, from: IpAddr, role: crate::fsm::Role) -> Result<Option<Conn>, String> {
+/// A connected loopback TCP pair: the client end bound to `from` (the neighbour's address),
+/// the server end as a listener would accept it.
+pub(crate) async fn socket_pair(from: IpAddr) -> Result<(TcpStream, TcpStream), String> {
     let bind_ip: IpAddr = match from {
         IpAddr::V4(_) => IpAddr::V4(Ipv4Addr::new(127, 0, 0, 1)),
         IpAddr::V6(_) => IpAddr::V6(std::net::Ipv6Addr::LOCALHOST),
@@ -110,7 +110,7 @@ pub(crate) async fn connect(d: &Daemon, from: IpAddr, role: crate::fsm::Role) ->
     // still in TIME_WAIT on the accepting side: connect() then fails with EADDRINUSE.  That is a
     // property of the harness sockets, not of the daemon: take other ports and try again.
     let mut attempt = 0;
-    let (client, server) = loop {
+    let pair = loop {
         attempt += 1;
         let listener = tokio::net::TcpListener::bind(SocketAddr::new(bind_ip, 0)).await.map_err(|e| format!("bind listener: {e}"))?;
         let laddr = listener.local_addr().map_err(|e| e.to_string())?;
@@ -126,15 +126,29 @@ pub(crate) async fn connect(d: &Daemon, from: IpAddr, role: crate::fsm::Role) ->
             Err(e) if e.kind() == std::io::ErrorKind::AddrInUse && attempt < 50 => continue,
             Err(e) => return Err(format!("bind client {from}: {e}")),
         }
-        let (client, server) = tokio::join!(sock.connect(laddr), tokio::time::timeout(Duration::from_secs(5), listener.accept()));
-        match (client, server) {
-            (Ok(c), Ok(Ok((s, _)))) => break (c, s),
-            (Err(e), _) if e.kind() == std::io::ErrorKind::AddrInUse && attempt < 50 => continue,
-            (Err(e), _) => return Err(format!("connect: {e}")),
-            (_, Ok(Err(e))) => return Err(format!("accept: {e}")),
-            (_, Err(_)) => return Err("accept: timed out".into()),
+        // the connection completes in the listener's backlog; accept() afterwards
+        let client = match sock.connect(laddr).await {
+            Ok(c) => c,
+            Err(e) if e.kind() == std::io::ErrorKind::AddrInUse && attempt < 50 => continue,
+            Err(e) => return Err(format!("connect: {e}")),
+        };
+        match tokio::time::timeout(Duration::from_secs(10), listener.accept()).await {
+            Ok(Ok((s, _))) => break (client, s),
+            Ok(Err(e)) => return Err(format!("accept: {e}")),
+            Err(_) => return Err("accept: timed out".into()),
         }
     };
+    Ok(pair)
+}
+
+/// Open a TCP connection from `from` and hand the server side to the real
+/// `accept_connection` with `role`.  Ok(None): the daemon refused the connection.
+pub(crate) async fn connect(d: &Daemon, from: IpAddr, role: crate::fsm::Role) -> Result<Option<Conn>, String> {
+    let bind_ip: IpAddr = match from {
+        IpAddr::V4(_) => IpAddr::V4(Ipv4Addr::new(127, 0, 0, 1)),
+        IpAddr::V6(_) => IpAddr::V6(std::net::Ipv6Addr::LOCALHOST),
+    };
+    let (client, server) = socket_pair(from).await?;
     let _ = client.set_nodelay(true);
     let _ = server.set_nodelay(true);
     // close with RST (no TIME_WAIT on the harness side); the daemon sees an I/O drop either way
